@@ -89,6 +89,27 @@ m("M-flow2", "C07", "E7-flow", ("x/node/keeper/shard_pledge_management.go", "err
 m("M-rmv", "C07", "G-rmv", ("x/node/keeper/msg_server_remove_vstorage.go", "if size.Int64() > pledge.TotalStorage-pledge.UsedStorage {", "if size.Int64() > pledge.TotalStorage {"))
 m("M-used", "C07", "G-used", ("x/node/keeper/shard_pledge_management.go", "if uint64(pledge.TotalStorage-pledge.UsedStorage) < shard.Size_ {", "if uint64(pledge.TotalStorage) < shard.Size_ {"))
 m("M-booked", "C07", "T-booked", ("x/node/keeper/shard_pledge_management.go", "\t\t\t\t\tDebt: shardPledge.Sub(balance),", "\t\t\t\t\tDebt: shardPledge,"))
+# ---------------------------------------------------------------- C04 / C05 / C11 / C12 / C13
+m("M9", "C11", "T-sched-shard", ("x/sao/keeper/msg_server_complete.go", "k.SetExpiredShardBlock(ctx, shard.Id, shard.CreatedAt+shard.Duration)", "k.SetExpiredShardBlock(ctx, shard.Id, shard.CreatedAt+order.Timeout)"))
+m("M9b", "C11", "T-sched-shard", ("x/sao/keeper/expire_management.go", "\t\tk.SetExpiredShardBlock(ctx, shard.Id, shard.CreatedAt+shard.Duration)\n", "\t\tif nextOrderInfo.Duration > 3600 {\n\t\t\tk.SetExpiredShardBlock(ctx, shard.Id, shard.CreatedAt+shard.Duration)\n\t\t}\n"))
+m("M10", "C12", "T-timeout", ("x/sao/keeper/msg_server_ready.go", "\tk.SetTimeoutOrderBlock(ctx, order, uint64(ctx.BlockHeight())+order.Timeout)\n", ""))
+m("M10b", "C12", "T-timeout", ("x/sao/keeper/msg_server_store.go", "\tif isProvider {\n\t\tk.SetTimeoutOrderBlock(", "\tif isProvider && len(sps) > 1 {\n\t\tk.SetTimeoutOrderBlock("))
+m("M11", "C05", "T-cancel", ("x/model/keeper/data_management.go", "\tk.RollbackMeta(ctx, order.DataId)\n\tk.order.RemoveOrder(ctx, orderId)", "\tif order.Operation != 2 {\n\t\tk.RollbackMeta(ctx, order.DataId)\n\t}\n\tk.order.RemoveOrder(ctx, orderId)"))
+m("M12", "C05", "E7-flow", ("x/order/keeper/order_management.go", "return k.bank.SendCoinsFromModuleToAccount(ctx, types.ModuleName, paymentAcc, sdk.Coins{order.Amount})", "return k.bank.SendCoinsFromModuleToAccount(ctx, types.ModuleName, paymentAcc, sdk.Coins{order.Amount.SubAmount(sdk.NewInt(1))})"))
+m("M-charge", "C04", "T-charge", ("x/sao/keeper/msg_server_store.go", "\torder.Amount = amount\n", "\torder.Amount = sdk.NewCoin(denom, amount.Amount.SubRaw(1))\n"))
+m("M-charge2", "C04", "T-charge", ("x/sao/keeper/msg_server_store.go", "\terr = k.bank.SendCoinsFromAccountToModule(ctx, paymentAddress, ordertypes.ModuleName, sdk.Coins{amount})\n\tif err != nil {\n\t\treturn nil, err\n\t}\n", "\tif !isProvider || len(sps) > 0 {\n\t\terr = k.bank.SendCoinsFromAccountToModule(ctx, paymentAddress, ordertypes.ModuleName, sdk.Coins{amount})\n\t\tif err != nil {\n\t\t\treturn nil, err\n\t\t}\n\t}\n"))
+m("M-cancelpre", "C05", "T-cancel-pre", ("x/sao/keeper/msg_server_cancel.go", "\t\t\tif err != nil {\n\t\t\t\treturn nil, err\n\t\t\t}\n\t\t}\n\t\tk.order.RemoveShard(ctx, id)", "\t\t\tif err != nil {\n\t\t\t\treturn nil, err\n\t\t\t}\n\t\t\tcontinue\n\t\t}\n\t\tk.order.RemoveShard(ctx, id)"))
+m("M-refundstate", "C05", "G-refund-state", ("x/sao/keeper/msg_server_cancel.go", "\tif order.Status == ordertypes.OrderCompleted {", "\tif order.Status == ordertypes.OrderCompleted && len(order.Shards) > 1 {"))
+m("M-reserve", "C05", "CAP-reserve", ("x/sao/keeper/msg_server_ready.go", "\tk.order.GenerateShards(ctx, &order, spAddresses)\n", "\tk.order.GenerateShards(ctx, &order, spAddresses)\n\tfor _, sp := range sps {\n\t\tif pledge, ok := k.node.GetPledge(ctx, sp.Creator); ok {\n\t\t\tpledge.UsedStorage += int64(order.Size_)\n\t\t\tk.node.SetPledge(ctx, pledge)\n\t\t}\n\t}\n"))
+m("M-listed", "C13", "T-listed", ("x/sao/keeper/msg_server_migrate.go", "\t\t\toldOrder.Shards = append(oldOrder.Shards, newShard.Id)\n\n\t\t\tk.order.SetOrder(ctx, oldOrder)\n", "\t\t\tif len(oldOrder.Shards) < 8 {\n\t\t\t\toldOrder.Shards = append(oldOrder.Shards, newShard.Id)\n\t\t\t\tk.order.SetOrder(ctx, oldOrder)\n\t\t\t}\n"))
+m("M-listed2", "C13", "T-listed", ("x/sao/keeper/timeout_management.go", "\t\tk.order.SetOrder(ctx, order)\n\t}\n\n\tk.SetTimeoutOrderBlock(", "\t}\n\n\tk.SetTimeoutOrderBlock("))
+m("M-alias", "C13", "T-alias", ("x/model/keeper/data_management.go", "\tk.RemoveMetadata(ctx, dataId)\n\tk.RemoveModel(ctx, key)\n\n\treturn nil\n}", "\tk.RemoveMetadata(ctx, dataId)\n\tif metadata.Alias != \"\" {\n\t\tk.RemoveModel(ctx, key)\n\t}\n\n\treturn nil\n}"))
+m("M-exits", "C12", "T-exits", ("x/sao/keeper/timeout_management.go", "\t\t\treturn\n\t\t}\n\t} else {\n\n\t\tfor i, node := range randSp {", "\t\t\treturn\n\t\t}\n\t\tif len(sps) > 16 {\n\t\t\treturn\n\t\t}\n\t} else {\n\n\t\tfor i, node := range randSp {"))
+m("M-nowait", "C12", "T-nowait", ("x/sao/keeper/timeout_management.go", "\t\tfor _, shardId := range uncompletedShards {\n\t\t\tk.order.RemoveShard(ctx, shardId)\n\t\t}\n\t\tif len(uncompletedShards) != 0 {", "\t\tfor _, shardId := range order.Shards {\n\t\t\tk.order.RemoveShard(ctx, shardId)\n\t\t}\n\t\tif len(uncompletedShards) != 0 {"))
+m("M-consume", "C11", "T-consume", ("x/sao/abci.go", "\t\tfor _, shardId := range ExpiredShard.ShardList {\n\t\t\tk.HandleExpiredShard(ctx, shardId)", "\t\tfor i, shardId := range ExpiredShard.ShardList {\n\t\t\tif i >= 64 {\n\t\t\t\tcontinue\n\t\t\t}\n\t\t\tk.HandleExpiredShard(ctx, shardId)"))
+m("M-lifetime", "C11", "T-lifetime", ("x/sao/keeper/msg_server_complete.go", "k.model.ExtendMetaDuration(ctx, meta.DataId, shard.CreatedAt+shard.Duration)", "k.model.ExtendMetaDuration(ctx, meta.DataId, shard.CreatedAt+order.Duration)"))
+m("M-schedmeta", "C05", "T-sched-meta", ("x/model/keeper/data_management.go", "\tk.removeDataExpireBlock(ctx, dataId, metadata.CreatedAt+metadata.Duration)\n\tk.RemoveMetadata(ctx, dataId)\n\tk.RemoveModel(ctx, key)\n\n\treturn nil", "\tk.RemoveMetadata(ctx, dataId)\n\tk.RemoveModel(ctx, key)\n\n\treturn nil"))
+m("M-caprel", "C11", "CAP-release", ("x/sao/keeper/msg_server_renew.go", "\t\t\tif shard.Status == ordertypes.ShardMigrating {\n\t\t\t\tcontinue\n\t\t\t}", "\t\t\tif shard.Status == ordertypes.ShardMigrating {\n\t\t\t\tk.node.ShardRelease(ctx, sdk.MustAccAddressFromBech32(shard.Sp), &shard)\n\t\t\t\tcontinue\n\t\t\t}"))
 # ---------------------------------------------------------------- C01 / C03
 m("M17", "C03", "D3", ("x/node/keeper/node.go", "func (k Keeper) SetNode(ctx sdk.Context, node types.Node) {\n",
    "var nodeCache = map[string]types.Node{}\n\nfunc (k Keeper) SetNode(ctx sdk.Context, node types.Node) {\n\tnodeCache[node.Creator] = node\n"))
@@ -130,6 +151,9 @@ P = [
  ("S-C08-a1", "C08", "G-mint", "/verif/seeded/C08-a1/patch.diff"),
  ("S-C15-a1", "C15", "G-elig-2", "/verif/seeded/C15-a1/patch.diff"),
  ("S-C16-a1", "C16", "T-forcepush", "/verif/seeded/C16-a1/patch.diff"),
+ ("S-C14-a1", "C14", "T-couple", "/verif/seeded/C14-a1/patch.diff"),
+ ("S-C06-a1", "C06", "T-booked", "/verif/seeded/C06-a1/patch.diff"),
+ ("S-C07-a1", "C07", "T-couple", "/verif/seeded/C07-a1/patch.diff"),
 ]
 for (id, prop, rule, path) in P:
     M.append((id, prop, rule, [("@patch", path, "")]))
